@@ -9,6 +9,7 @@ import (
 	"fmt"
 	"io"
 	"log"
+	"net"
 	"os"
 	"sync"
 	"time"
@@ -34,7 +35,10 @@ func (e *connEnv) close() {
 	e.net.Close()
 }
 
-func newConnEnv(window time.Duration) (*connEnv, error) {
+func newConnEnv(window time.Duration) (*connEnv, error) { return newConnEnvWT(window, 0) }
+
+// newConnEnvWT: writeTimeout > 0 sets ClusterConfig.WriteTimeout (otherwise the write timeout is cfg.Timeout).
+func newConnEnvWT(window, writeTimeout time.Duration) (*connEnv, error) {
 	n := node.NewNet()
 	nd := n.AddNode("10.0.0.1:9042")
 	n.SetKeyspace("demo", node.Keyspace{Replication: node.SimpleStrategy(1), DurableWrites: true})
@@ -54,6 +58,7 @@ func newConnEnv(window time.Duration) (*connEnv, error) {
 	cfg.Consistency = gocql.One
 	cfg.Logger = log.New(io.Discard, "", 0)
 	cfg.WriteCoalesceWaitTime = window
+	cfg.WriteTimeout = writeTimeout
 	s, err := gocql.NewSession(*cfg)
 	if err != nil {
 		n.Close()
@@ -166,6 +171,18 @@ func wireMonitor(o *hlib.Out, idx int, what string, e *connEnv, off int64, inFli
 	return torn, late
 }
 
+// followUp: a request that starts after the failed write has been reported to its caller.  If the failed write
+// left part of a frame on the wire (k > 0), nothing more may ever be written on that connection; this later
+// request was not registered when the partial write happened, so known finding F-C07-1 does not cover it.
+func followUp(o *hlib.Out, idx int, e *connEnv, k int, in interface{}) {
+	l := e.pool.Link()
+	before := l.C2S.Written()
+	e.query(keyOf(4))
+	if k > 0 && l.C2S.Written() != before {
+		o.Violate(idx, "frame-after-torn-frame", "", fmt.Sprintf("a request started after the partial write (%d bytes of a frame) had been reported put %d more bytes on the same connection", k, l.C2S.Written()-before), in)
+	}
+}
+
 func connLevel(o *hlib.Out) {
 	r := o.Rng
 	sc := o.Scale
@@ -176,7 +193,12 @@ func connLevel(o *hlib.Out) {
 		name string
 		err  error
 	}
-	kinds := []ek{{"(EOther 5)", codeErr{5}}, {"ECanceled", context.Canceled}, {"EDeadlineExceeded", context.DeadlineExceeded}, {"(EOther 6)", fmt.Errorf("wrapped: %w", codeErr{6})}}
+	// the last two are what a net.Conn returns when the write deadline passes: a *net.OpError wrapping
+	// os.ErrDeadlineExceeded (Timeout() == true), and a bare os.ErrDeadlineExceeded
+	netTimeout := &net.OpError{Op: "write", Net: "tcp", Err: os.ErrDeadlineExceeded}
+	kinds := []ek{{"(EOther 5)", codeErr{5}}, {"ECanceled", context.Canceled}, {"EDeadlineExceeded", context.DeadlineExceeded}, {"(EOther 6)", fmt.Errorf("wrapped: %w", codeErr{6})},
+		{fmt.Sprintf("(EOther %d)", codeTimeout), netTimeout}, {fmt.Sprintf("(EOther %d)", codeTimeout), os.ErrDeadlineExceeded},
+		{fmt.Sprintf("(EOther %d)", codeNetClosed), &net.OpError{Op: "write", Net: "tcp", Err: net.ErrClosed}}, {"EEOF", io.EOF}, {"EConnClosed", gocql.ErrConnectionClosed}}
 	for _, window := range []time.Duration{0, 200 * time.Microsecond} {
 		for _, kind := range kinds {
 			// k: 0, 1, inside the header, at the header end, in the body, last byte
@@ -220,9 +242,49 @@ func connLevel(o *hlib.Out) {
 				if got := int(l.C2S.Written() - off); closed && got != k {
 					o.Violate(idx, "write-after-close", "", fmt.Sprintf("%d bytes on the connection after the failed write of %d", got, k), in)
 				}
-				wireMonitor(o, idx, "single request", e, off, true, in)
+				wireMonitor(o, idx, "single request", e, off, false, in) // nothing else is in flight here
+				followUp(o, idx, e, k, in)
 				e.close()
 			}
+		}
+	}
+
+	// ---- N1b: the same with a real write deadline: the Write stalls after k bytes until cfg.WriteTimeout passes ----
+	for _, window := range []time.Duration{0, 200 * time.Microsecond} {
+		for pos := 0; pos < 3; pos++ {
+			e, err := newConnEnvWT(window, 40*time.Millisecond)
+			if err != nil {
+				o.Count("env-anomaly-skipped")
+				continue
+			}
+			l := e.pool.Link()
+			off0 := l.C2S.Written()
+			if e.query(keyOf(3)) != nil {
+				o.Count("env-anomaly-skipped")
+				e.close()
+				continue
+			}
+			frame := append([]byte(nil), l.C2S.Bytes()[off0:]...)
+			flen := len(frame)
+			k := []int{0, 4, flen - 1}[pos]
+			off := l.C2S.Written()
+			l.C2S.AddWriteFault(node.WriteFault{Offset: off + int64(k), Stall: true})
+			qerr := e.query(keyOf(3))
+			closed := l.ClientClosed()
+			ws := writesFrom(l, off)
+			if qerr == errHang || len(ws) == 0 || ws[0].N != k || ws[0].Err == nil || errName(ws[0].Err) != fmt.Sprintf("(EOther %d)", codeTimeout) {
+				o.Count("env-anomaly-skipped")
+				e.close()
+				continue
+			}
+			idx := o.Case("conn-must-close-deadline", true, fmt.Sprintf("CMustClose %s %s %d (EOther %d) %s", hlib.Bool(window > 0), hlib.ZList(frame), k, codeTimeout, hlib.Bool(closed)))
+			in := map[string]interface{}{"window": window.String(), "k": k, "error": "write deadline expired (real timer, WriteTimeout 40ms)", "frame_len": flen, "query_error": fmt.Sprint(qerr)}
+			if qerr == nil {
+				o.Violate(idx, "failed-write-reported-success", "", "the request whose frame was cut returned no error", in)
+			}
+			wireMonitor(o, idx, "single request, write deadline", e, off, false, in)
+			followUp(o, idx, e, k, in)
+			e.close()
 		}
 	}
 
